@@ -232,6 +232,8 @@ def gen_limit_scenario(rng, tier, style=None):
     I = rng.choice([1000, 10 ** 6, 10 ** 9])
     icap = rng.choice([0, 0, 1, 3, min(Q, 8), min(2 * Q, 16)])
     style = style or rng.choice(["upfront", "upfront", "trickle", "stall-burst", "random", "slowcons"])
+    if style == "slowcons" and rng.random() < 0.5:
+        icap = 0        # the output buffer is a single slot: a busy consumer makes the discipline block inside a batch
     k = rng.randrange(0, 5)
     N = rng.choice([0, max(Q - 1, 0), Q, k * Q, k * Q + 1, max(k * Q - 1, 0), rng.randrange(0, 40)]) if Q <= 100 else rng.randrange(0, 40)
     N = min(N, 60 if tier == "quick" else 400)
@@ -486,6 +488,21 @@ def monitor_limit(kind):
                 fails.append("output closed at %d before the input was closed at %d" % (tr.tclose, closed_at))
             if times and tr.tclose >= 0 and tr.tclose < times[-1]:
                 fails.append("output closed before the last element was forwarded")
+            if m["icap"] == 0 and Q <= 10 ** 6:
+                # unbuffered input, any consumer: the discipline takes the next element as soon as it is offered, its predecessor has
+                # been written out (no later than the consumer received it) and, at a batch boundary, one Interval has passed since it
+                # took the first element of the previous batch (the batch clock starts no later than that)
+                dl = m["delays"]
+                for j in range(1, min(len(tr.puts), len(times) + 1, len(dl))):
+                    offer = tr.puts[j - 1] + dl[j]
+                    bound = max(offer, times[j - 1])
+                    if j % Q == 0:
+                        bound = max(bound, tr.puts[j - Q] + I)
+                    if tr.puts[j] > bound:
+                        fails.append("element %d was taken from the input only at %d although it was offered at %d, its predecessor had left by %d%s: "
+                                     "throttled below the configured rate" % (j + 1, tr.puts[j], offer, times[j - 1],
+                                                                              (" and the previous batch started by %d" % tr.puts[j - Q]) if j % Q == 0 else ""))
+                        break
             if m["prompt"]:
                 # fewer than Quantity elements since the start of a batch pass with no pause at all
                 for j in range(min(Q, len(times), len(tr.puts))):
